@@ -18,7 +18,7 @@ ENGINES = [
      'kind_free_text': 'in-process DFS over environment answers for the C PAM module (clang ASan/UBSan, --wrap of socket calls, stub PAM headers, virtual time)'},
     {'name': 'tracefs', 'path': 'tracefs harness/drv harness/oracle', 'serves_properties': ['C03', 'C08', 'C09', 'C15'],
      'kind_free_text': 'strace-based system-call trace of a driver built from the real code, replayed in a Python file-system persistence model (validated against the real directory); exhaustive crash-state / fault / path enumeration'},
-    {'name': 'mc', 'path': 'mc tools/mcrewrite harness/agentmc harness/saslmc', 'serves_properties': ['C04', 'C05', 'C06', 'C10', 'C11', 'C12', 'C18', 'C19'],
+    {'name': 'mc', 'path': 'mc tools/mcrewrite harness/agentmc harness/saslmc', 'serves_properties': ['C04', 'C05', 'C06', 'C10', 'C14', 'C11', 'C12', 'C18', 'C19'],
      'kind_free_text': 'hand-written controlled scheduler + stateless/state-pruned DFS explorer for Go channel code, bound to the real source by an AST rewriter applied through go build -overlay'},
     {'name': 'seqx', 'path': 'harness/c01 harness/c02 harness/c14 harness/c16 harness/c18 harness/x', 'serves_properties': ['C01', 'C02', 'C14', 'C16', 'C18'],
      'kind_free_text': 'explicit-state BFS over operation sequences on the real store.Dir with a reference model (hand-written, Go)'},
@@ -51,7 +51,8 @@ CHECKS = {
         'technique': 'exhaustive enumeration over a grid of generated configuration files x passwords x write paths with independent digest recomputation',
         'text': 'For every configuration of the grid (all combinations of the stated scrypt/argon2id parameter values incl. defaulted r/p, multi-set stores with every default) every record written by add/update is parsed against the schema and its digest recomputed independently from the YAML numbers; salts must be pairwise distinct over all writes.',
         'note': 'Parameter values are limited to cheap ones; x/crypto primitives are the trusted reference; salt freshness is only checkable as distinctness.',
-        'parts': [GoBin('records', 'harness/c14')],
+        'parts': [GoBin('records', 'harness/c14'),
+                  McPart('reload', 'C14', 'cmd/whawty-auth', ['harness/agentmc'], AGENT_RW, extra_rewrites=STORE_FILEOPS)],
     },
     'C18': {
         'level': 'model_checking',
